@@ -101,6 +101,25 @@ Theorem C13_silent_after_end : forall c ch evs s,
 Proof. exact ended_silent. Qed.
 Print Assumptions C13_silent_after_end.
 
+(* logger.Fatal is an explicit outcome: a failure (error return of streamLogsToChan) ends in Fatal
+   exactly when two failures are already on the count; a failure of an invocation that moved the
+   cursor resets the count; the count never exceeds 2 while the stream lives.  (As coded, the third
+   counted failure is fatal even if its own invocation made progress.) *)
+Theorem C13_fatal_on_third_counted_failure : forall s next,
+  s_mode (fail_step s next) = MFatal <-> 2 <= s_tries s.
+Proof. exact fail_step_fatal_iff. Qed.
+Print Assumptions C13_fatal_on_third_counted_failure.
+
+Theorem C13_tries_reset_on_progress : forall s next, s_tries s < 2 ->
+  s_tries (fail_step s next) = if s_inv s <? next then 0 else s_tries s + 1.
+Proof. exact fail_step_tries. Qed.
+Print Assumptions C13_tries_reset_on_progress.
+
+Theorem C13_tries_bounded : forall c ch from evs s out, stream c ch from evs = (s, out) ->
+  s_mode s = MFatal \/ s_tries s <= 2.
+Proof. exact stream_tries. Qed.
+Print Assumptions C13_tries_bounded.
+
 (* FetchHistoricalLogs (through SyncHistory): whatever happens, what the handler received is a
    correct prefix ending at the last delivered block; on success it reaches the node's block
    number minus the follow distance. *)
